@@ -14,9 +14,12 @@ package c18
 
 import (
 	"context"
+	"encoding/json"
 	"errors"
 	"fmt"
 	"net"
+	"os"
+	"os/exec"
 	"strings"
 	"sync"
 	"sync/atomic"
@@ -91,20 +94,27 @@ func Run(r *vh.Run) {
 		name string
 		n    int
 		f    func(name string, rng *vh.RNG, r *vh.Run)
+		// isolated scenarios run in a child process of the harness: a configuration that makes a
+		// goroutine of the code under test panic takes the process down, which must be an
+		// observation (oracle class process-crashed) with the configuration as failing input
+		isolated bool
 	}
+	child := os.Getenv("VERIF_C18_CHILD")
 	scens := []scen{
-		{"tg", r.Pick(8, 150), scenTG},
-		{"inflight", r.Pick(10, 220), scenInflight},
-		{"holstall", r.Pick(6, 80), scenHOL},
-		{"churn", r.Pick(6, 200), scenChurn},
-		{"rejects", r.Pick(5, 80), scenRejects},
-		{"caps", r.Pick(6, 120), scenCaps},
-		{"capsout", r.Pick(2, 30), scenCapsOut},
-		{"shutdown", r.Pick(10, 250), scenShutdown},
-		{"srv", r.Pick(3, 60), scenSrv},
-		{"wallet", r.Pick(2, 30), scenWallet},
+		{"tg", r.Pick(8, 150), scenTG, false},
+		{"inflight", r.Pick(10, 220), scenInflight, false},
+		{"holstall", r.Pick(6, 80), scenHOL, false},
+		{"churn", r.Pick(6, 200), scenChurn, false},
+		{"rejects", r.Pick(5, 80), scenRejects, false},
+		{"matrix", r.Pick(20, 60), scenMatrix, true},
+		{"caps", r.Pick(6, 120), scenCaps, false},
+		{"capsout", r.Pick(2, 30), scenCapsOut, false},
+		{"shutdown", r.Pick(14, 252), scenShutdown, false},
+		{"srv", r.Pick(3, 60), scenSrv, false},
+		{"wallet", r.Pick(2, 30), scenWallet, false},
 	}
 	var slow []string
+	var isolated, inproc []func()
 	for _, s := range scens {
 		for i := 0; i < s.n; i++ {
 			name := fmt.Sprintf("%s%02d", s.name, i)
@@ -112,11 +122,47 @@ func Run(r *vh.Run) {
 			if r.Only != "" && !hasPrefix(r.Only, name) {
 				continue
 			}
-			t0 := time.Now()
-			s.f(name, sub, r)
-			if d := time.Since(t0); d > 3*time.Second {
-				slow = append(slow, fmt.Sprintf("%s %.1fs %s", name, d.Seconds(), slowInfo))
+			if child != "" {
+				if child == name {
+					s.f(name, sub, r)
+				}
+				continue
 			}
+			if s.isolated {
+				isolated = append(isolated, func() { runChild(name, r) })
+				continue
+			}
+			f := s.f
+			inproc = append(inproc, func() {
+				t0 := time.Now()
+				f(name, sub, r)
+				if d := time.Since(t0); d > 3*time.Second {
+					slow = append(slow, fmt.Sprintf("%s %.1fs %s", name, d.Seconds(), slowInfo))
+				}
+			})
+		}
+	}
+	if child != "" {
+		return
+	}
+	// the isolated scenarios first: child processes, a few at a time.  If a configuration kills
+	// its process (a panic in a goroutine of the code under test) that is the finding; the
+	// in-process scenarios draw from the same configurations and would take the harness down
+	// with them, so they are not run in that case.
+	os.MkdirAll(r.OutDir, 0o755)
+	sem := make(chan struct{}, 6)
+	var iwg sync.WaitGroup
+	for _, f := range isolated {
+		iwg.Add(1)
+		sem <- struct{}{}
+		go func() { defer iwg.Done(); f(); <-sem }()
+	}
+	iwg.Wait()
+	if childCrashed.Load() {
+		r.Extra("in_process_scenarios", "not run: an isolated configuration crashed its process")
+	} else {
+		for _, f := range inproc {
+			f()
 		}
 	}
 	r.Extra("slow_scenarios", slow)
@@ -822,6 +868,225 @@ func scenRejects(name string, rng *vh.RNG, r *vh.Run) {
 	}
 }
 
+var childMu sync.Mutex
+
+// runChild executes one isolated scenario in a child process and turns what the child reports
+// (oracle / correspondence failures, or its death) into a case of this run.
+func runChild(name string, r *vh.Run) {
+	c := &vh.Case{Name: name, Nontrivial: true, Key: name, Tags: []string{"scen:matrix", "isolated:child-process"}}
+	defer func() { childMu.Lock(); r.Add(c); childMu.Unlock() }()
+	dir, err := os.MkdirTemp(r.OutDir, "c18child")
+	if err != nil {
+		c.Oracle("harness-isolate", "%v", err)
+		return
+	}
+	defer os.RemoveAll(dir)
+	ctx, cancel := context.WithTimeout(context.Background(), 4*time.Minute)
+	defer cancel()
+	cmd := exec.CommandContext(ctx, os.Args[0], "C18", "-tier", r.Tier, "-seed", fmt.Sprint(r.Seed), "-drv", r.Drv, "-out", dir)
+	cmd.Env = append(os.Environ(), "VERIF_C18_CHILD="+name)
+	out, _ := cmd.CombinedOutput()
+	code := cmd.ProcessState.ExitCode()
+	text := string(out)
+	c.Info = map[string]any{"child_exit": code}
+	switch code {
+	case 0:
+	case 1:
+		for _, l := range strings.Split(text, "\n") {
+			t := strings.TrimSpace(l)
+			for _, kind := range []string{"oracle", "corr"} {
+				if strings.HasPrefix(t, kind+"[") {
+					if i := strings.Index(t, "]"); i > 0 {
+						c.Fail(kind, t[len(kind)+1:i], strings.TrimSpace(t[i+1:]))
+					}
+				}
+			}
+		}
+		if len(c.Fails) == 0 {
+			c.Oracle("child-failed", "%s", tail(text, 600))
+		}
+	default:
+		msg := text
+		if i := strings.Index(text, "panic:"); i >= 0 {
+			msg = text[i:]
+		}
+		if len(msg) > 900 {
+			msg = msg[:900]
+		}
+		childCrashed.Store(true)
+		c.Oracle("process-crashed", "the process running the code under test died (exit %d) in this configuration: %s", code, msg)
+	}
+	// add the child's tie figures to this run's
+	if b, err := os.ReadFile(dir + "/C18.part.json"); err == nil {
+		var part struct {
+			Ops    int `json:"model_ops_compared"`
+			Traces int `json:"traces_validated_against_impl"`
+		}
+		if json.Unmarshal(b, &part) == nil {
+			childMu.Lock()
+			childOps += part.Ops
+			childTraces += part.Traces
+			r.Extra("isolated_children_model_ops_compared", childOps)
+			r.Extra("isolated_children_traces_validated", childTraces)
+			childMu.Unlock()
+		}
+	}
+}
+
+var childOps, childTraces int
+var childCrashed atomic.Bool
+
+// the configuration matrix: every combination of per-peer and per-subnet limit
+var matrixPeer = []int{-1, 0, 1, 2, 64}
+var matrixSub = []int{-1, 0, 1, 2}
+
+// scenMatrix (runs in a child process): one configuration (MaxInflightRPCs, MaxInflightRPCsPerSubnet)
+// of the matrix, chosen by the scenario's number so that every quick run covers all 20.  Whatever
+// the limits (a limit >= 1, or <= 0 = disabled): a request that arrives while nothing is in flight
+// must be served; with the handlers held, the number of handlers inside and the number of requests
+// dropped are exactly what the two limits allow.
+func scenMatrix(name string, rng *vh.RNG, r *vh.Run) {
+	idx := 0
+	fmt.Sscanf(name[len("matrix"):], "%d", &idx)
+	maxPeer := matrixPeer[idx%len(matrixPeer)]
+	maxSub := matrixSub[(idx/len(matrixPeer))%len(matrixSub)]
+	burst := 3 + rng.Intn(2)
+	c := &vh.Case{Name: name, Tags: []string{"scen:matrix", fmt.Sprintf("matrix:%d/%d", maxPeer, maxSub)},
+		Info: map[string]any{"maxPeer": maxPeer, "maxSub": maxSub, "burst": burst}}
+	defer func() { r.Add(c) }()
+	threadgroup.VerifStart()
+	srv, err := newNode("127.0.0.1", "", func(int) int { return 0 }, true,
+		syncer.WithMaxInflightRPCs(maxPeer), syncer.WithMaxInflightRPCsPerSubnet(maxSub), syncer.WithInflightRPCSubnetPrefixes(24, 48))
+	if err != nil {
+		orc(c, "setup", "server: %v", err)
+		return
+	}
+	srv.gate.setOpen(true)
+	genesis := srv.cm.Tip().ID
+	var clients []*node
+	var peers []*syncer.Peer
+	for i := 0; i < 2; i++ {
+		ip := fmt.Sprintf("127.0.40.%d", i+1)
+		cl, err := newNode(ip, ip, nil, false)
+		if err != nil {
+			orc(c, "setup", "client: %v", err)
+			return
+		}
+		clients = append(clients, cl)
+		p, err := cl.s.Connect(context.Background(), srv.s.Addr())
+		if err != nil {
+			orc(c, "setup", "connect: %v", err)
+			return
+		}
+		peers = append(peers, p)
+	}
+	const promptly = 10 * time.Second
+	// phase 1: one request at a time, nothing else in flight: no limit can bind
+	for k, cli := range []int{0, 1, 0} {
+		if err := rpcBlocks(context.Background(), peers[cli], cli, k, genesis, promptly); err != nil {
+			orc(c, "rpc-never-served", "a request that arrived while nothing was in flight was not served within %v (%v) with MaxInflightRPCs = %d, MaxInflightRPCsPerSubnet = %d (<= 0 disables a limit)", promptly, err, maxPeer, maxSub)
+			break
+		}
+		time.Sleep(20 * time.Millisecond)
+	}
+	// phase 2: handlers held, one peer issues `burst` requests one after the other
+	if len(c.Fails) == 0 {
+		srv.gate.setOpen(false)
+		results := make(chan error, burst)
+		for k := 0; k < burst; k++ {
+			before := srv.gate.enteredBy(0)
+			go func(k int) { results <- rpcBlocks(context.Background(), peers[0], 0, 10+k, genesis, rpcTimeout) }(k)
+			deadline := time.Now().Add(stagger)
+			for time.Now().Before(deadline) && srv.gate.enteredBy(0) == before {
+				time.Sleep(200 * time.Microsecond)
+			}
+			if srv.gate.enteredBy(0) == before {
+				time.Sleep(stagger)
+			}
+		}
+		p, s := eff(maxPeer), eff(maxSub)
+		expected := min(burst, p, s)
+		// the subnet fills before the peer's own limit: every further request is dropped;
+		// otherwise the further requests wait for a per-peer slot
+		wantDropped := 0
+		if s < p && s < burst {
+			wantDropped = burst - s
+		}
+		srv.gate.waitInside(expected, settleDeadline)
+		got := srv.gate.waitStable(100*time.Millisecond, 3*time.Second)
+		dropped := 0
+		deadline := time.Now().Add(settleDeadline)
+		for dropped < wantDropped && time.Now().Before(deadline) {
+			select {
+			case err := <-results:
+				if err != nil {
+					dropped++
+				} else {
+					orc(c, "inflight-handlers-inside", "a request completed although every handler is held")
+				}
+			case <-time.After(50 * time.Millisecond):
+			}
+		}
+		select {
+		case err := <-results:
+			if err != nil {
+				dropped++
+			}
+		case <-time.After(150 * time.Millisecond):
+		}
+		switch {
+		case (got != expected || dropped != wantDropped) && holStalled():
+			orc(c, holClass, "stalled with maxPeer %d, maxSub %d", maxPeer, maxSub)
+		case got != expected:
+			orc(c, "inflight-handlers-inside", "with every handler held and %d requests of one peer, %d handler(s) are inside, expected %d (MaxInflightRPCs %d, MaxInflightRPCsPerSubnet %d)", burst, got, expected, maxPeer, maxSub)
+		case dropped != wantDropped:
+			orc(c, "inflight-drop-count", "with every handler held and %d requests of one peer, %d request(s) were dropped, expected %d: requests beyond the subnet's budget are dropped, requests beyond the peer's own limit wait (MaxInflightRPCs %d, MaxInflightRPCsPerSubnet %d)", burst, dropped, wantDropped, maxPeer, maxSub)
+		}
+		srv.gate.mu.Lock()
+		if m := srv.gate.maxCli[0]; maxPeer > 0 && m > maxPeer {
+			orc(c, "inflight-peer-limit-exceeded", "%d handlers of one peer ran at once, MaxInflightRPCs = %d", m, maxPeer)
+		}
+		if m := srv.gate.maxSub[0]; maxSub > 0 && m > maxSub {
+			orc(c, "inflight-subnet-limit-exceeded", "%d handlers of the subnet ran at once, MaxInflightRPCsPerSubnet = %d", m, maxSub)
+		}
+		srv.gate.mu.Unlock()
+		srv.gate.setOpen(true)
+		left := burst - dropped
+		deadline = time.Now().Add(rpcTimeout + settleDeadline)
+		for left > 0 && time.Now().Before(deadline) {
+			select {
+			case err := <-results:
+				left--
+				if err != nil && !holStalled() {
+					orc(c, "rpc-dropped-on-per-peer-path", "a request that was waiting for a slot failed after the handlers were released: %v", err)
+				}
+			case <-time.After(100 * time.Millisecond):
+			}
+		}
+		if left > 0 {
+			orc(c, "rpc-lost", "%d request(s) never completed", left)
+		}
+	}
+	srv.gate.setOpen(true)
+	if ok, _ := closeWithin(func() { srv.s.Close() }, closeDeadline); !ok {
+		orc(c, "syncer-close-hung", "Syncer.Close did not return within %v", closeDeadline)
+	}
+	for _, cl := range clients {
+		closeWithin(func() { cl.s.Close() }, closeDeadline)
+	}
+	events := threadgroup.VerifStop()
+	c.Nontrivial = true
+	c.Key = fmt.Sprintf("%s/%d/%d", name, maxPeer, maxSub)
+	inventory(c)
+	tags := []string{"scen:matrix"}
+	for _, tc := range inflightCases(name, events, srv.s.VerifID(), srv.s.VerifTG(), maxPeer, maxSub, tags) {
+		r.Add(tc)
+	}
+	if tc := teardownCase(name, events, srv.s.VerifID(), srv.s.VerifTG(), tags); tc != nil {
+		r.Add(tc)
+	}
+}
+
 // scenHOL: fully concurrent requests of one peer against a small per-peer limit, handlers never
 // held by the harness.  The per-peer limit is meant to back-pressure; because the transport hands
 // frames to streams one at a time, a request frame of a stream that still waits for a slot can sit
@@ -1112,7 +1377,10 @@ func scenCapsOut(name string, rng *vh.RNG, r *vh.Run) {
 // syncer: Close at random moments relative to connections being established
 
 func scenShutdown(name string, rng *vh.RNG, r *vh.Run) {
-	mode := rng.Intn(5) // 0: outbound Connects racing Close; 1: inbound dials racing Close; 2: fatal sync error, then Connect, then Close; 3: mixed + RPC traffic; 4: connections that complete the handshake but are not added (duplicate id / inbound limit) and send a frame at once
+	// the mode is the scenario's number modulo 7, so that every quick run covers every mode
+	idx := 0
+	fmt.Sscanf(name[len("shutdown"):], "%d", &idx)
+	mode := idx % 7 // 0: outbound Connects racing Close; 1: inbound dials racing Close; 2: fatal sync error, then Connect, then Close; 3: mixed + RPC traffic; 4: connections that complete the handshake but are not added (duplicate id / inbound limit) and send a frame at once; 5: the owner closes the net.Listener itself before Close (the listener is already closed when Close runs); 6: a fatal sync error makes Run close the listener, then Close
 	nRem := 2 + rng.Intn(6)
 	closeAfter := time.Duration(rng.Intn(2500)) * time.Microsecond
 	c := &vh.Case{Name: name, Tags: []string{"scen:shutdown", fmt.Sprintf("shutdown-mode:%d", mode)},
@@ -1120,7 +1388,7 @@ func scenShutdown(name string, rng *vh.RNG, r *vh.Run) {
 	defer func() { r.Add(c) }()
 	threadgroup.VerifStart()
 	opts := []syncer.Option{}
-	if mode == 2 {
+	if mode == 2 || mode == 6 {
 		opts = append(opts, syncer.WithSyncInterval(5*time.Millisecond))
 	}
 	maxIn := 64
@@ -1189,6 +1457,29 @@ func scenShutdown(name string, rng *vh.RNG, r *vh.Run) {
 		for i := range remotes {
 			dial(i, rng.Bool(), time.Duration(rng.Intn(2000))*time.Microsecond)
 		}
+	case 5, 6:
+		// Close must stop the thread group although closing the listener reports an error
+		for i := range remotes {
+			if i%2 == 0 {
+				dial(i, true, 0)
+			}
+		}
+		wg.Wait()
+		if mode == 5 {
+			threadgroup.VerifRecord("x.listener.closed", srv.s.VerifID(), 0) // harness marker: environment step
+			srv.l.Close()
+		} else {
+			srv.gate.mu.Lock()
+			srv.gate.failHist = true
+			srv.gate.mu.Unlock()
+		}
+		time.Sleep(time.Duration(10+rng.Intn(30)) * time.Millisecond) // Run notices, closes the listener and the peers
+		for i := range remotes {
+			if i%2 == 1 && rng.Bool() {
+				dial(i, true, 0) // Connect still works until Close
+			}
+		}
+		wg.Wait()
 	case 4:
 		// one regular peer, then raw connections: the first ones reuse its unique id (refused as
 		// "already connected" after the handshake), the others have fresh ids and hit the inbound
@@ -1236,7 +1527,7 @@ func scenShutdown(name string, rng *vh.RNG, r *vh.Run) {
 	mark("close")
 	if !ok {
 		orc(c, "syncer-close-hung", "Syncer.Close did not return within %v (mode %d: %s)", closeDeadline, mode,
-			[]string{"outbound Connects racing Close", "inbound dials racing Close", "peer connected after a fatal sync error", "mixed dials and RPCs racing Close", "connections refused after the handshake"}[mode])
+			[]string{"outbound Connects racing Close", "inbound dials racing Close", "peer connected after a fatal sync error", "mixed dials and RPCs racing Close", "connections refused after the handshake", "listener closed by its owner before Close", "listener closed by Run after a fatal sync error"}[mode])
 	}
 	wg.Wait()
 	mark("dials")
